@@ -42,6 +42,15 @@ impl AR {
 
     /// Given some data, predict the value for a single timestep ahead.
     pub fn predict_one(&self, data: &[f64]) -> f64 {
+        let centred = data
+            .iter()
+            .map(|x| x - self.intercept)
+            .collect::<Vec<f64>>();
+        self.step(&centred) + self.intercept
+    }
+
+    /// One step of the AR recursion on mean-centred data.
+    fn step(&self, data: &[f64]) -> f64 {
         let n = data.len();
         let coeff_len = self.coeffs.len();
         if n >= coeff_len {
@@ -57,10 +66,14 @@ impl AR {
     /// "data" to create subsequent forecasts.
     pub fn predict(&self, data: &[f64], n: usize) -> Vec<f64> {
         let forecasts = vec![0.; n];
-        let mut d: Vec<f64> = data[data.len() - self.coeffs.len()..].to_vec();
+        // the model describes deviations from the mean
+        let mut d: Vec<f64> = data[data.len() - self.coeffs.len()..]
+            .iter()
+            .map(|x| x - self.intercept)
+            .collect();
         d.extend(forecasts);
         for i in self.coeffs.len()..d.len() {
-            d[i] = self.predict_one(&d[..i]);
+            d[i] = self.step(&d[..i]);
         }
         d[d.len() - n..]
             .to_vec()
